@@ -53,8 +53,19 @@ def spec_matches(rule_id: Str, pattern: Str) -> Bool:
     return direct_match(rule_id.lower(), pattern.lower()) or alias_match(rule_id.lower(), pattern.lower())
 
 
-def any_matches(rule_id, patterns):
-    return any(spec_matches(rule_id, p) for p in patterns)
+def bracket_rules_match(text, rule_id):
+    """`[a, b.c, d.*]` syntax: comma-separated spellings, surrounding blanks ignored; some spelling names the rule."""
+    return any(spec_matches(rule_id, r) for r in [r.strip() for r in text.split(",")])
+
+
+def space_rules_match(text, rule_id):
+    """`ignore-file a b,c` syntax: spellings separated by blanks and/or commas."""
+    return any(spec_matches(rule_id, r) for r in [r.strip() for r in re_split(r"[,\s]+", text) if r.strip()])
+
+
+def rmv(rules, rule_id):
+    """A rule set (modelled as the sequence of its elements) covers the rule: bare `*`, or some spelling names it."""
+    return "*" in rules or any(spec_matches(rule_id, p) for p in rules)
 
 
 # ------------------------------------------------------------------ contracts
@@ -99,15 +110,14 @@ class RuleMatches:
           returns=Bool)
 class CheckBracketRules:
     def value(rules_text, rule_id):
-        # comma-separated spellings, surrounding blanks ignored
-        return any(spec_matches(rule_id, r) for r in [r.strip() for r in rules_text.split(",")])
+        return bracket_rules_match(rules_text, rule_id)
 
 
 @contract(RM + "check_space_separated_rules", props=["C04"], types=dict(rules_text=Str, rule_id=Str, ignored_rules=SeqOf(Str)),
           returns=Bool)
 class CheckSpaceSeparatedRules:
     def value(rules_text, rule_id):
-        return any(spec_matches(rule_id, r) for r in [r.strip() for r in re_split(r"[,\s]+", rules_text) if r.strip()])
+        return space_rules_match(rules_text, rule_id)
 
 
 @contract(RM + "rules_match_violation", props=["C04"], types=dict(ignored_rules=SeqOf(Str), rule_id=Str), returns=Bool)
@@ -116,7 +126,7 @@ class RulesMatchViolation:
     depend on order or multiplicity)."""
 
     def value(ignored_rules, rule_id):
-        return "*" in ignored_rules or any(spec_matches(rule_id, p) for p in ignored_rules)
+        return rmv(ignored_rules, rule_id)
 
 
 # ------------------------------------------------------------------ lemmas
